@@ -16,6 +16,9 @@ struct Case {
     uses: Vec<usize>, // 0..3 = use module i, 3..6 = use module (i-3)::name
     /// module `a` provides the name as an extern type instead of a type definition
     a_extern: bool,
+    /// 0: nothing; 1 / 2: `use b::Big<name>;` (a type whose name ends in the observed name) written before /
+    /// after the other imports; 3: the observer module defines such a type itself
+    suffix_twin: u8,
 }
 
 fn cases(tier: &str) -> Vec<Case> {
@@ -27,9 +30,15 @@ fn cases(tier: &str) -> Vec<Case> {
                 for len in 0..=maxlen {
                     for idx in 0..6usize.pow(len as u32) {
                         let uses = util::decode(idx, &vec![6; len]);
-                        out.push(Case { name, defined: [dmask & 1 != 0, dmask & 2 != 0, dmask & 4 != 0], local, uses: uses.clone(), a_extern: false });
+                        out.push(Case { name, defined: [dmask & 1 != 0, dmask & 2 != 0, dmask & 4 != 0], local, uses: uses.clone(), a_extern: false, suffix_twin: 0 });
+                        if len <= 2 {
+                            // a longer name that ends in the observed one must never stand in for it
+                            for suffix_twin in 1..=3u8 {
+                                out.push(Case { name, defined: [dmask & 1 != 0, dmask & 2 != 0, dmask & 4 != 0], local, uses: uses.clone(), a_extern: false, suffix_twin });
+                            }
+                        }
                         if dmask & 1 != 0 && name == "X" && len <= 2 {
-                            out.push(Case { name, defined: [true, dmask & 2 != 0, dmask & 4 != 0], local, uses, a_extern: true });
+                            out.push(Case { name, defined: [true, dmask & 2 != 0, dmask & 4 != 0], local, uses, a_extern: true, suffix_twin: 0 });
                         }
                     }
                 }
@@ -50,15 +59,27 @@ fn input_of(c: &Case) -> pipe::Input {
         } else {
             text.push_str("pub type Other {\n    pub v: u8,\n}\n");
         }
+        if i == 1 && c.suffix_twin > 0 {
+            text.push_str(&format!("pub type Big{} {{\n    pub v: [u64; 5],\n}}\n", c.name));
+        }
         modules.push((path.to_string(), text));
     }
     let mut o = String::new();
+    if c.suffix_twin == 1 {
+        o.push_str(&format!("use b::Big{};\n", c.name));
+    }
     for u in &c.uses {
         if *u < 3 {
             o.push_str(&format!("use {};\n", PROVIDERS[*u].0));
         } else {
             o.push_str(&format!("use {}::{};\n", PROVIDERS[*u - 3].0, c.name));
         }
+    }
+    if c.suffix_twin == 2 {
+        o.push_str(&format!("use b::Big{};\n", c.name));
+    }
+    if c.suffix_twin == 3 {
+        o.push_str(&format!("pub type Big{} {{\n    pub v: [u64; 7],\n}}\n", c.name));
     }
     if c.local {
         o.push_str(&format!("pub type {} {{\n    pub v: u16,\n}}\n", c.name));
@@ -105,7 +126,7 @@ pub fn all_inputs(tier: &str) -> Vec<pipe::Input> {
 pub fn run(tier: &str, only: Option<&Value>) -> i32 {
     let mut rep = Report::new("C11", tier);
     let all = cases(tier);
-    rep.rule = "E1: modules a, b, n::c each define (or not) a type of the observed short name with sizes 4/8/16, the observer module with or without its own definition (size 2), every ordered use list of length <= 3 (4 thorough) over {use a, use b, use n::c, use a::N, use b::N, use n::c::N}, for the names X, u32 and void (user types named like a built-in; `void` is the one built-in that is emitted under another path); oracle: precedence model -> expected crate path of the field / parameter / return type (syn) and the size pyxis used for the referring type; distinct = distinct (winning rule, number of candidates, name, verdict)".into();
+    rep.rule = "E1: modules a, b, n::c each define (or not) a type of the observed short name with sizes 4/8/16, the observer module with or without its own definition (size 2), every ordered use list of length <= 3 (4 thorough) over {use a, use b, use n::c, use a::N, use b::N, use n::c::N}, each also next to a type `Big<name>` (imported by name before or after the other imports, or defined locally) whose name merely ends in the observed one, for the names X, u32 and void (user types named like a built-in; `void` is the one built-in that is emitted under another path); oracle: precedence model -> expected crate path of the field / parameter / return type (syn) and the size pyxis used for the referring type; distinct = distinct (winning rule, number of candidates, name, verdict)".into();
     rep.assumptions = vec!["that the resolved size equals the compiled size is C02's claim; here the resolved size identifies which definition was used for layout".into()];
     let only_i = only.map(|l| (l["index"].as_u64().unwrap_or(0) as usize, l["ps"].as_u64().unwrap_or(8) as usize));
     for ps in [4usize, 8] {
